@@ -2,6 +2,7 @@ package avro
 
 import (
 	"fmt"
+	"math"
 	"reflect"
 	"unsafe"
 )
@@ -31,6 +32,13 @@ func (rc *arrayCodec) Read(r *ReadBuf, p unsafe.Pointer) error {
 			if _, err := r.Varint(); err != nil {
 				return fmt.Errorf("failed to read block size for array. %w", err)
 			}
+		}
+
+		if count < 0 || count > int64(math.MaxInt-sh.Len) {
+			// the new length would overflow (or -count did): resizeSlice would
+			// conclude the slice is big enough and items would be stored past
+			// its capacity
+			return fmt.Errorf("array block count %d is out of range", count)
 		}
 
 		// If our array is nil or undersized then we can fix it up here.
